@@ -201,7 +201,7 @@ Definition do_lookup (c : cfg) (s : state) (a : aid) (sh : shape) (k : key) : re
       ROk (set_pc s1 a (if sh_is_try sh then PKeyTry sh k else PKeyWait sh k)) ONothing
   | None =>
       let (s1, g) := new_guard s k in
-      let ents := s_ents s1 ++ [(k, mkE None (Some (OwnG g)) [] 1)] in
+      let ents := aset k (mkE None (Some (OwnG g)) [] 1) (s_ents s1) in
       ROk (fin (with_ents s1 ents) a) (OGuard g k None)
   end.
 
